@@ -113,8 +113,7 @@ def pydantic_stricter_datetime(case):
 
 
 def legacy_list_order(case):
-    argv = case.get("argv_plan", {}) if isinstance(case, dict) else {}
-    return bool(argv.get("legacy_before_model"))
+    return bool(isinstance(case, dict) and case.get("legacy_first"))
 
 
 PREDICATES = dict(
